@@ -141,6 +141,26 @@ func post(path string, body []byte, deadline time.Duration) (int, bool) {
 	}
 }
 
+func postW(path string, body []byte, deadline time.Duration) (*httptest.ResponseRecorder, bool) {
+	ch := make(chan *httptest.ResponseRecorder, 1)
+	go func() {
+		defer func() {
+			if r := recover(); r != nil {
+				w := httptest.NewRecorder()
+				w.Code = 599
+				ch <- w
+			}
+		}()
+		ch <- doHTTP("POST", path, body)
+	}()
+	select {
+	case w := <-ch:
+		return w, true
+	case <-time.After(deadline):
+		return nil, false
+	}
+}
+
 var httpHangs int
 
 // notifyCase: a recharge notification whose consumer is not passive.
@@ -266,9 +286,19 @@ func runHTTP1(t []string) string {
 	}
 	ref := sid
 	code, done := 0, true
+	ownRef, ownCreated := "", false // the session the raw create itself opened (whatever its subscriber looks like)
 	switch kind {
 	case "create":
-		code, done = post(ccPrefix+"/chargingdata", body, 40*time.Second)
+		var wc *httptest.ResponseRecorder
+		wc, done = postW(ccPrefix+"/chargingdata", body, 40*time.Second)
+		if done {
+			code = wc.Code
+			if l := wc.Header().Get("Location"); code == 201 && l != "" {
+				if i := strings.LastIndex(l, "/chargingdata/"); i >= 0 {
+					ownRef, ownCreated = l[i+len("/chargingdata/"):], true
+				}
+			}
+		}
 	case "update", "release":
 		if !mkSession() {
 			return "setup-failed"
@@ -322,6 +352,20 @@ func runHTTP1(t []string) string {
 	if done {
 		st = fmt.Sprint(code)
 	}
+	// a raw create that was accepted: its own session is updated and released with the same body
+	fu3 := "-"
+	if ownCreated && done {
+		var st3 []string
+		for _, k := range []string{"update", "release"} {
+			c, ok := post(ccPrefix+"/chargingdata/"+escapePath(ownRef)+"/"+k, body, 25*time.Second)
+			if !ok {
+				st3 = append(st3, "hang")
+				break
+			}
+			st3 = append(st3, fmt.Sprint(c))
+		}
+		fu3 = strings.Join(st3, "/")
+	}
 	// follow-up for the same subscriber
 	fu, fu2 := "-", "-"
 	if sid == "" {
@@ -333,7 +377,7 @@ func runHTTP1(t []string) string {
 			if ok {
 				fu = fmt.Sprint(c)
 			}
-			return fmt.Sprintf("st=%s fu=%s fu2=%s", st, fu, fu2)
+			return fmt.Sprintf("st=%s fu=%s fu2=%s fu3=%s", st, fu, fu2, fu3)
 		}
 	}
 	b, _ := json.Marshal(fullRequest(probeSupi, 1))
@@ -349,7 +393,7 @@ func runHTTP1(t []string) string {
 			fu2 = fmt.Sprint(c)
 		}
 	}
-	return fmt.Sprintf("st=%s fu=%s fu2=%s", st, fu, fu2)
+	return fmt.Sprintf("st=%s fu=%s fu2=%s fu3=%s", st, fu, fu2, fu3)
 }
 
 func genHTTP(o genOpts, w *bufio.Writer) {
@@ -429,9 +473,14 @@ func genHTTP(o genOpts, w *bufio.Writer) {
 			c["subscriberIdentifier"] = s
 			emit(k, c, "@")
 		}
+		// the same as a one-time event (the session has no reference of its own)
+		c := deepCopy(base).(map[string]interface{})
+		c["subscriberIdentifier"] = s
+		c["oneTimeEvent"] = true
+		emit("create", c, "@")
 	}
-	for _, mcc := range []string{"", "2", "20", "2089", "abc"} {
-		for _, mnc := range []string{"", "9", "93", "930", "9300"} {
+	for _, mcc := range []string{"", "2", "20", "2089", "abc", "1é", "é1", "ééé", "20\u00e9", "２０８"} {
+		for _, mnc := range []string{"", "9", "93", "930", "9300", "é", "9é", "9\u00e99"} {
 			c := deepCopy(base)
 			editAt(c, []string{"nfConsumerIdentification", "nFPLMNID", "mcc"}, func(m map[string]interface{}, key string) { m[key] = mcc })
 			editAt(c, []string{"nfConsumerIdentification", "nFPLMNID", "mnc"}, func(m map[string]interface{}, key string) { m[key] = mnc })
